@@ -85,6 +85,24 @@ LookFails(e) ==
       dist(a) == AngleDeg(e.lat[a], e.lon[a], e.q[1], e.q[2])
   IN IF ~exact THEN {"GenExact|lookup"}
      ELSE IF k < 1 \/ k > n \/ \E a \in 1..n : dist(a) < dist(k) THEN {"NearestNode|node_number"} ELSE {}
+\* general position: every pair against the haversine closed form
+Tol2m10 == 97656                   \* 2^-10 rad in units of 10^-8
+HTol == 100                        \* 10^-6 in the haversine: a few float32 ulps of the cosine (twice the measured maximum)
+GenFails(e) ==
+  LET o == e.obs  n == Len(e.lat) IN
+  (IF o.sym # 1 THEN {"Symmetric|angular_distance"} ELSE {})
+  \cup (IF \E a \in 1..n : \E b \in 1..n :
+            ~AngleWithin(o.ang8[a][b], Tol2m10, e.lat[a], e.lon[a], e.lat[b], e.lon[b])
+        THEN {"ClosedForm|angular_distance(general position, 2^-10)"} ELSE {})
+  \cup (IF \E a \in 1..n : \E b \in 1..n : ~HavClose(o.ang8[a][b], HTol, e.lat[a], e.lon[a], e.lat[b], e.lon[b])
+        THEN {"SinglePrecision|angular_distance(general position)"} ELSE {})
+\* the node returned for a query point in general position is at minimal distance, up to the single-precision
+\* accuracy of the distances
+GLookFails(e) ==
+  LET n == Len(e.lat)  k == e.obs.node + 1
+      h(a) == HavTrue8(e.lat[a], e.lon[a], e.q[1], e.q[2])
+  IN IF k < 1 \/ k > n THEN {"NearestNode|node_number(general position)"}
+     ELSE IF \E a \in 1..n : h(a) + 2 * HTol < h(k) THEN {"NearestNode|node_number(general position)"} ELSE {}
 RandFails(e) ==
   LET o == e.obs IN
   (IF o.sym # 1 THEN {"Symmetric|angular_distance"} ELSE {})
@@ -95,7 +113,8 @@ RandFails(e) ==
 Verdict(e) ==
   IF e.obs.exc # "" THEN <<"REJECT", "Applicable", e.obs.exc, e.blk>>
   ELSE LET f == IF e.blk = "geo" THEN GeoFails(e) ELSE IF e.blk = "euc" THEN EucFails(e)
-                ELSE IF e.blk = "rect" THEN RectFails(e) ELSE IF e.blk = "look" THEN LookFails(e) ELSE RandFails(e)
+                ELSE IF e.blk = "rect" THEN RectFails(e) ELSE IF e.blk = "look" THEN LookFails(e)
+                ELSE IF e.blk = "gen" THEN GenFails(e) ELSE IF e.blk = "glook" THEN GLookFails(e) ELSE RandFails(e)
        IN IF f = {} THEN <<"ACCEPT", "", "", e.blk>> ELSE <<"REJECT", "Multi", JoinSet(f), e.blk>>
 Verdicts == TLCEval([k \in 1..Len(Trace) |-> Verdict(Trace[k])])
 Init == i = 1
